@@ -134,6 +134,8 @@ type EnsuresAll struct {
 
 type ContractFile struct {
 	MapOrders  []MapOrderDirective
+	OrderState []string // named types that are traversal memory (orderstate directive)
+	NilSweep   map[string]bool // properties whose sweep also asks for nil-result dereferences
 	GlobalStates []GlobalStateDirective
 	FieldsClosed []FieldsClosedDirective
 	Callers      []CallersDirective
@@ -289,6 +291,28 @@ func processContractLines(cf *ContractFile, lines []string, lnos []int) error {
 				return fmt.Errorf("line %d: maporder Cxx file.go", no)
 			}
 			cf.MapOrders = append(cf.MapOrders, MapOrderDirective{fs[1], fs[2]})
+			cur = nil
+			continue
+		case strings.HasPrefix(t, "nilsweep "):
+			// nilsweep Cxx: swept functions also get panic.nil obligations where a call result,
+			// a map lookup or a comma-ok result is dereferenced
+			fs := strings.Fields(t)
+			if len(fs) != 2 {
+				return fmt.Errorf("line %d: nilsweep Cxx", no)
+			}
+			if cf.NilSweep == nil {
+				cf.NilSweep = map[string]bool{}
+			}
+			cf.NilSweep[fs[1]] = true
+			cur = nil
+			continue
+		case strings.HasPrefix(t, "orderstate "):
+			// orderstate Cxx TypeName: values of *TypeName remember what a traversal has met
+			fs := strings.Fields(t)
+			if len(fs) != 3 {
+				return fmt.Errorf("line %d: orderstate Cxx TypeName", no)
+			}
+			cf.OrderState = append(cf.OrderState, fs[2])
 			cur = nil
 			continue
 		case strings.HasPrefix(t, "resets "):
